@@ -42,6 +42,7 @@ Proof.
   - cbn [search_loop]. apply confined_mk; [exact Hpar|discriminate].
   - cbn [search_loop]. destruct (pi_next (v_os v) pi) as [ok pi1]. destruct ok; cbn [negb].
     2:{ apply confined_mk; [exact Hpar|intros x [= <-]; exact Hpar]. }
+    destruct (Nat.eqb parent vol && negb _); [apply confined_mk; [exact Hpar|discriminate]|].
     destruct (alookup str_eqb (pi_part pi1) (children h parent)) as [c|] eqn:Hl.
     2:{ apply confined_mk; [exact Hpar|discriminate]. }
     assert (Hc : reach h root c) by (eapply reach_child; eauto).
@@ -136,6 +137,26 @@ Proof.
   repeat split. exists (done ++ [c]). rewrite app_assoc. split; reflexivity.
 Qed.
 
+(* the search bit of the walk's start directory is tested whenever a name is looked up in it *)
+Lemma root_test_false (h : heap) (u : user) (vol n : nat) :
+  perm_on h vol OpenLookup u = true ->
+  Nat.eqb n vol && negb (match get h n with
+                         | Some x => check_permission (node_meta x) OpenLookup u
+                         | None => false
+                         end) = false.
+Proof.
+  intros Hp. destruct (Nat.eqb_spec n vol) as [->|_]; [|reflexivity].
+  unfold perm_on in Hp. rewrite Hp. reflexivity.
+Qed.
+
+Lemma dir_chain_perm h u : forall ds r nd,
+  dir_chain h u r ds nd -> perm_on h r OpenLookup u = true -> perm_on h nd OpenLookup u = true.
+Proof.
+  induction ds as [|d ds IH]; intros r nd H Hr; cbn [dir_chain] in H.
+  - subst. exact Hr.
+  - destruct H as (c & chs & m & _ & Hg & Hp & Hc). apply (IH c nd Hc). unfold perm_on. rewrite Hg. exact Hp.
+Qed.
+
 Section Prefix.
   Variable h : heap.
   Variables vp vv : view.          (* the parent view, the sub view *)
@@ -152,13 +173,14 @@ Section Prefix.
 
   (* phase 2: below the view's root the two walks proceed in lock step *)
   Lemma walk_sim : forall todo done n fp fv pip piv volp volv,
+    perm_on h volp OpenLookup (v_user vp) = true -> perm_on h volv OpenLookup (v_user vp) = true ->
     ps = done ++ todo -> todo <> [] ->
     before (ds ++ ps) (ds ++ done) pip -> before ps done piv ->
     length todo < fp -> length todo < fv ->
     symfree_walk h n todo ->
     sr_corr ds ps (search_loop fp h vp slm volp n pip 0 None) (search_loop fv h vv slm volv n piv 0 None).
   Proof.
-    induction todo as [|c rest IH]; intros done n fp fv pip piv volp volv Hsplit Hne Hbp Hbv Hfp Hfv Hsf;
+    induction todo as [|c rest IH]; intros done n fp fv pip piv volp volv Hvolp Hvolv Hsplit Hne Hbp Hbv Hfp Hfv Hsf;
       [congruence|].
     destruct fp as [|fp]; [cbn in Hfp; lia|]. destruct fv as [|fv]; [cbn in Hfv; lia|].
     assert (Hsplitp : ds ++ ps = (ds ++ done) ++ c :: rest) by (rewrite Hsplit, app_assoc; reflexivity).
@@ -166,14 +188,17 @@ Section Prefix.
     rewrite (@pi_next_step _ _ _ _ Hcs Hsplitp Hbp), (@pi_next_step _ _ _ _ Hps Hsplit Hbv). cbn [negb].
     rewrite (on_comp_part _ _ _ _ Hsplitp), (on_comp_part _ _ _ _ Hsplit).
     rewrite (on_comp_last _ _ _ _ Hsplitp), (on_comp_last _ _ _ _ Hsplit).
+    rewrite Huser, (root_test_false h (v_user vp) volp n Hvolp), (root_test_false h (v_user vp) volv n Hvolv).
     assert (Hpc : pi_corr ds ps (on_comp (ds ++ ps) (ds ++ done) c) (on_comp ps done c)).
     { exists done, c, rest. auto. }
     cbn [symfree_walk] in Hsf. cbn [out_pi].
     destruct (alookup str_eqb c (children h n)) as [x|]; [|repeat split; auto].
     destruct (get h x) as [[ch m|d k i m|link m]|]; try (repeat split; auto; fail).
     - destruct rest as [|c2 rest]; [repeat split; auto|].
-      rewrite Huser. destruct (check_permission m OpenLookup (v_user vp)); [|repeat split; auto].
+      destruct (check_permission m OpenLookup (v_user vp)); [|repeat split; auto].
       apply (IH (done ++ [c])).
+      + exact Hvolp.
+      + exact Hvolv.
       + rewrite Hsplit, <- app_assoc. reflexivity.
       + discriminate.
       + rewrite app_assoc. apply on_comp_before.
@@ -187,29 +212,36 @@ Section Prefix.
 
   (* phase 1: the parent walks down d1..dk to the view's root *)
   Lemma walk_ds : forall ds2 ds1 n f pi vol nd,
+    perm_on h vol OpenLookup (v_user vp) = true ->
     ds = ds1 ++ ds2 -> ps <> [] ->
     before (ds ++ ps) ds1 pi ->
     dir_chain h (v_user vp) n ds2 nd ->
     exists pi', before (ds ++ ps) ds pi'
                 /\ search_loop (length ds2 + f) h vp slm vol n pi 0 None = search_loop f h vp slm vol nd pi' 0 None.
   Proof.
-    induction ds2 as [|c ds2 IH]; intros ds1 n f pi vol nd Hsplit Hne Hb Hch.
+    induction ds2 as [|c ds2 IH]; intros ds1 n f pi vol nd Hvol Hsplit Hne Hb Hch.
     - cbn [dir_chain] in Hch. subst nd. rewrite app_nil_r in Hsplit. subst ds1. exists pi. split; [exact Hb|reflexivity].
     - cbn [dir_chain] in Hch. destruct Hch as (x & chs & m & Hl & Hg & Hperm & Hch).
       assert (Hsp : ds ++ ps = ds1 ++ c :: (ds2 ++ ps)) by (rewrite Hsplit, <- app_assoc; reflexivity).
       destruct (IH (ds1 ++ [c]) x f (on_comp (ds ++ ps) ds1 c) vol nd) as (pi' & Hb' & E).
+      + exact Hvol.
       + rewrite Hsplit, <- app_assoc. reflexivity.
       + exact Hne.
       + apply on_comp_before.
       + exact Hch.
       + exists pi'. split; [exact Hb'|]. rewrite <- E.
         cbn [length plus search_loop]. rewrite Hosp, (@pi_next_step _ _ _ _ Hcs Hsp Hb). cbn [negb].
-        rewrite (on_comp_part _ _ _ _ Hsp), (on_comp_last _ _ _ _ Hsp), Hl, Hg.
+        rewrite (on_comp_part _ _ _ _ Hsp), (on_comp_last _ _ _ _ Hsp), (root_test_false h (v_user vp) vol n Hvol), Hl, Hg.
         destruct (ds2 ++ ps) eqn:E2; [apply app_eq_nil in E2; destruct E2; congruence|].
         rewrite Hperm. reflexivity.
   Qed.
 
   Hypothesis Hchain : dir_chain h (v_user vp) (v_root vp) ds (v_root vv).
+  (* the acting user may search the parent's root (hence, by the chain, the view's root) *)
+  Hypothesis Hrootp : perm_on h (v_root vp) OpenLookup (v_user vp) = true.
+
+  Let Hrootv : perm_on h (v_root vv) OpenLookup (v_user vp) = true.
+  Proof. exact (dir_chain_perm h (v_user vp) ds (v_root vp) (v_root vv) Hchain Hrootp). Qed.
 
   Lemma loops_prefix fp fv :
     ps <> [] -> symfree_walk h (v_root vv) ps -> length ds + length ps < fp -> length ps < fv ->
@@ -219,7 +251,7 @@ Section Prefix.
   Proof.
     intros Hne Hsf Hfp Hf.
     destruct (walk_ds ds [] (v_root vp) (fp - length ds) (pi_new Linux (abs_path (ds ++ ps))) (v_root vp) (v_root vv))
-      as (pi' & Hb' & E); [reflexivity|exact Hne|apply pi_new_before|exact Hchain|].
+      as (pi' & Hb' & E); [exact Hrootp|reflexivity|exact Hne|apply pi_new_before|exact Hchain|].
     replace (length ds + (fp - length ds)) with fp in E by lia.
     rewrite E. apply (walk_sim ps []); auto.
     - rewrite app_nil_r. exact Hb'.
@@ -250,7 +282,7 @@ Section Prefix.
         destruct f as [|f]; [cbn in Hf; lia|]. cbn [dir_chain] in Hch.
         destruct Hch as (x & chs & m & Hl & Hg & Hperm & Hch).
         cbn zeta. cbn [search_loop]. rewrite Hosp, (@pi_next_step _ _ _ _ Hds Hsplit Hb). cbn [negb].
-        rewrite (on_comp_part _ _ _ _ Hsplit), (on_comp_last _ _ _ _ Hsplit), Hl, Hg.
+        rewrite (on_comp_part _ _ _ _ Hsplit), (on_comp_last _ _ _ _ Hsplit), (root_test_false h (v_user vp) (v_root vp) n Hrootp), Hl, Hg.
         destruct ds2 as [|c2 ds2].
         - cbn [dir_chain] in Hch. subst x. cbn. auto.
         - rewrite Hperm. apply (IH (ds1 ++ [c])).
@@ -268,7 +300,7 @@ Section Prefix.
         destruct f as [|f]; [cbn in Hf; lia|]. cbn [dir_chain] in Hch.
         destruct Hch as (x & chs & m & Hl & Hg & Hperm & Hch).
         cbn [search_loop]. rewrite Hosp, (@pi_next_step _ _ _ _ Hds Hsplit Hb). cbn [negb].
-        rewrite (on_comp_part _ _ _ _ Hsplit), (on_comp_last _ _ _ _ Hsplit), Hl, Hg.
+        rewrite (on_comp_part _ _ _ _ Hsplit), (on_comp_last _ _ _ _ Hsplit), (root_test_false h (v_user vp) (v_root vp) n Hrootp), Hl, Hg.
         destruct ds2 as [|c2 ds2].
         - reflexivity.
         - rewrite Hperm. apply (IH (ds1 ++ [c])).
@@ -297,11 +329,12 @@ Theorem search_prefix (s : fsys) (vp vv : view) (slm : slmode) (ds ps : list str
   v_os vp = Linux -> v_os vv = Linux -> v_user vv = v_user vp ->
   Forall good_comp ds -> Forall good_comp ps -> ps <> [] ->
   dir_chain (f_heap s) (v_user vp) (v_root vp) ds (v_root vv) ->
+  perm_on (f_heap s) (v_root vp) OpenLookup (v_user vp) = true ->
   symfree_walk (f_heap s) (v_root vv) ps ->
   length ds + length ps < SEARCH_FUEL ->
   sr_corr ds ps (search_node s vp (abs_path (ds ++ ps)) slm) (search_node s vv (abs_path ps) slm).
 Proof.
-  intros Hosp Hosv Hu Hds Hps Hne Hch Hsf Hlen.
+  intros Hosp Hosv Hu Hds Hps Hne Hch Hroot Hsf Hlen.
   rewrite !search_node_abs_path by (try apply Forall_app; auto).
   apply loops_prefix; auto using Forall_comp_ok_of. lia.
 Qed.
@@ -310,13 +343,14 @@ Theorem search_prefix_root (s : fsys) (vp vv : view) (slm : slmode) (ds : list s
   v_os vp = Linux -> v_os vv = Linux ->
   Forall good_comp ds -> ds <> [] ->
   dir_chain (f_heap s) (v_user vp) (v_root vp) ds (v_root vv) ->
+  perm_on (f_heap s) (v_root vp) OpenLookup (v_user vp) = true ->
   length ds < SEARCH_FUEL ->
   let rp := search_node s vp (abs_path ds) slm in
   let rv := search_node s vv (abs_path []) slm in
   sr_child rp = Some (v_root vv) /\ sr_child rv = Some (v_root vv)
   /\ sr_err rp = EFileExists /\ sr_err rv = EFileExists /\ sr_parent rv = Some (v_root vv).
 Proof.
-  intros Hosp Hosv Hds Hne Hch Hlen. cbv zeta.
+  intros Hosp Hosv Hds Hne Hch Hroot Hlen. cbv zeta.
   rewrite !search_node_abs_path by auto.
   apply (loops_prefix_root (f_heap s) vp vv slm Hosp Hosv ds [] (Forall_comp_ok_of Hds)); auto.
   unfold SEARCH_FUEL. lia.
@@ -394,11 +428,12 @@ Theorem search_prefix_any (s : fsys) (vp vv : view) (slm : slmode) (ds cw : list
   let qs := view_comps cw p in
   qs <> [] ->
   dir_chain (f_heap s) (v_user vp) (v_root vp) ds (v_root vv) ->
+  perm_on (f_heap s) (v_root vp) OpenLookup (v_user vp) = true ->
   symfree_walk (f_heap s) (v_root vv) qs ->
   length ds + length qs < SEARCH_FUEL ->
   sr_corr ds qs (search_node s vp (abs_path (ds ++ qs)) slm) (search_node s vv p slm).
 Proof.
-  intros Hosp Hosv Hu Hds Hcw qs Hne Hch Hsf Hlen.
+  intros Hosp Hosv Hu Hds Hcw qs Hne Hch Hroot Hsf Hlen.
   destruct (view_abs vv cw p Hcw) as (Ha & Hg). fold qs in Ha, Hg.
   rewrite (search_node_abs s vv p slm qs Hosv Ha Hg). apply search_prefix; auto.
 Qed.
